@@ -2,7 +2,7 @@
 interleavings at operation granularity explored sequentially"""
 import os
 from vf.core import *
-ROOTS = ['vf_lg_init', 'vf_lg_run', 'vf_lg_send', 'vf_lg_enqueue', 'vf_lg_stop', 'vf_lg_stop_step1', 'vf_lg_stop_step2', 'vf_lg_stopping', 'vf_le_copy', 'vf_le_make', 'vf_le_level', 'vf_le_val', 'vf_le_empty', 'vf_le_exit', 'vf_le_size']
+ROOTS = ['vf_lg_init', 'vf_lg_run', 'vf_lg_send', 'vf_lg_enqueue', 'vf_lg_stop', 'vf_lg_stop_step1', 'vf_lg_stop_step2', 'vf_lg_stopping', 'vf_le_copy', 'vf_le_make', 'vf_le_level', 'vf_le_val', 'vf_le_empty', 'vf_le_exit', 'vf_le_len', 'vf_le_byte', 'vf_le_size']
 FUN = ['FIX8::Logger::operator()()', 'FIX8::Logger::send', 'FIX8::Logger::enqueue', 'FIX8::Logger::stop', 'FIX8::Logger::is_loggable', 'FIX8::Logger::LogElement ctors (copy, (tid,str,level,fl,val))',
        'FIX8::f8_thread_cancellation_token::request_stop/operator!/stop_requested', 'FIX8::Tickval(bool)/copy']
 STUBS = ['ff_unbounded_queue<LogElement>::try_push := append (value, level, text-empty) of the element to an abstract FIFO, returns true; try_pop := scheduling point, then hand out the oldest element rebuilt by the real LogElement constructor; release := count (contract justified by C30)',
@@ -44,7 +44,7 @@ def replay(ctx, cx, h=None):
     c = cx.get('cx', cx)
     exe = ctx.native('c28replay', ['replay/c28_replay.cpp'], flags=('-O1', '-g'), libs=['-L' + REPO + '/runtime/.libs', '-lfix8', '-Wl,-rpath,' + REPO + '/runtime/.libs'])
     n = int(c.get('cx_nlines', 2) or 2)
-    want = ('ret' if int(c.get('cx_ret_bad', 0) or 0) else '') + ('drop' if int(c.get('cx_dropped', 0) or 0) else '')
+    want = ('ret' if int(c.get('cx_ret_bad', 0) or 0) else '') + ('drop' if int(c.get('cx_dropped', 0) or 0) else '') + ('text' if int(c.get('cx_text_changed', 0) or 0) else '')
     # the texts the solver chose (hex, one argument per submitted line, in submission order); default text "line"
     t0 = c.get('cx_t0') or []; t1 = c.get('cx_t1') or []; tl = c.get('cx_tlen') or []
     texts = []
